@@ -14,6 +14,7 @@ The table facts the proof consumes (`prec_eq_level`, `sides_left`, `sides_cmp`, 
 a change of the Rust precedence table that loses grouping makes them fail.
 -/
 import MambaVerif.Lemmas.PyMain
+import MambaVerif.Lemmas.PyFull
 
 namespace MV.C10
 
@@ -46,6 +47,54 @@ theorem operand_roundtrip (e : CE) (he : frag e = true) (min : Nat) :
       (fun _ => ⟨fun _ t ht => by simp at ht, fun _ t ht => by simp at ht⟩)
       (Ev_exit (fun t ht => by simp at ht))
     simpa using h
+
+/-- **print_parse_roundtrip_full**: the same for the whole expression language of the printer —
+    conditional expressions, lambdas, calls, attribute access and method calls, subscripts, `isinstance`,
+    `math.sqrt`, E-notation, tuple/list/set displays, nested in any way with the operators.  `full`
+    excludes exactly: tuples with fewer than two elements and the empty set display (for which the
+    statement is FALSE: `(x)` is `x` and `{}` is a dictionary in Python — see the witnesses below),
+    properties that are neither a name nor a call of a name, and lambda parameters that are not names. -/
+theorem print_parse_roundtrip_full (e : CE) (he : full e = true) :
+    Ev (fun fuel => parse fuel 1 (pr e)) (embed e, []) := by
+  have h := S_all2 e he 1 [] (embed e, []) (Nat.le_refl _) (full_prec_bounds e).1
+    ⟨stop_nil _, nonAssoc2_of_stop2 e [] (stop_nil _)⟩ (Ev_exit (fun t ht => by simp at ht))
+  simpa using h
+
+theorem roundtrip_unique_full (e : CE) (he : full e = true) (x : PyAst × List PTok)
+    (hx : Ev (fun fuel => parse fuel 1 (pr e)) x) : x = (embed e, []) :=
+  Ev.unique hx (print_parse_roundtrip_full e he)
+
+/-- the operator fragment is part of the full language -/
+theorem frag_full : (e : CE) → frag e = true → full e = true
+  | .atom _, _ => rfl
+  | .int _, _ => rfl
+  | .bin _ l r, h => by
+    have h' : frag l = true ∧ frag r = true := by simpa [frag] using h
+    simp [full, frag_full l h'.1, frag_full r h'.2]
+  | .un _ x, h => by
+    have h' : frag x = true := by simpa [frag] using h
+    simp [full, frag_full x h']
+  | .enum _ _, h | .ternary _ _ _, h | .lambda _ _, h | .call _ _, h | .attr _ _, h | .index _ _, h
+  | .isA _ _, h | .sqrt _, h | .tuple _, h | .list _, h | .set _, h => by simp [frag] at h
+
+/-- WITNESS that the exclusion of one-element tuples is necessary: the printed form of the tuple `(x,)`
+    is `(x)`, which the grammar parses as the bare name. -/
+theorem one_tuple_witness :
+    Ev (fun fuel => parse fuel 1 (pr (.tuple [.atom "x"]))) (.name "x", []) ∧
+      embed (.tuple [.atom "x"]) ≠ .name "x" := by
+  constructor
+  · have h := operand_roundtrip (.atom "x") rfl 16
+    have e : operand (.atom "x") 16 = pr (.tuple [.atom "x"]) := by
+      simp [operand_unfold, CE.prec, precAtom_eq, pr_tuple, pr_atom, parens, commaSep, prAll]
+    rw [e] at h
+    simpa [embed] using h
+  · simp [embed, embedAll]
+
+/-! Non-vacuity of the full statement: `f(a if c else b, lambda x: x + 1)[i].m(y) ** 2`, `(a, b if c else d)`. -/
+example : full (.bin .Pow (.attr (.index (.call (.atom "f") [.ternary (.atom "c") (.atom "a") (.atom "b"),
+    .lambda [.atom "x"] (.bin .Add (.atom "x") (.int "1"))]) (.atom "i")) (.call (.atom "m") [.atom "y"])) (.int "2")) = true := by
+  decide
+example : full (.tuple [.atom "a", .ternary (.atom "c") (.atom "b") (.atom "d")]) = true := by decide
 
 /-! Non-vacuity: `a - (b - c)`, `-(a * b) ** c`, `not (a == b) and c` are in the fragment. -/
 example : frag (.bin .Sub (.atom "a") (.bin .Sub (.atom "b") (.atom "c"))) = true := by decide
